@@ -21,6 +21,11 @@
 (*                              keep the first STRICT maximum of the trace *)
 (*   hklmax/find_uniq_hkls 242-257 same scan per column with the packed    *)
 (*                              key (h*1000 + k)*1000 + l, cand = o . hkl  *)
+(*                              (mode "h": one column; mode "l": the 3 x n *)
+(*                              ARRAY as the code handles it - one pass of *)
+(*                              `for o in grp.group` per operator over all *)
+(*                              columns at once, msk = t > tmax per column,*)
+(*                              np.where keeps / replaces column by column)*)
 (*                                                                         *)
 (* How the operators act (decides the transposition in the metric law):    *)
 (*   find_uniq_u forms op(o, ubi) = o . ubi : the rows of a UBI are the    *)
@@ -42,16 +47,23 @@
 (*   a, b    cursors of the two for-loops of makegroup                     *)
 (*   new     makegroup's flag                                              *)
 (*   mode    "-" | "u" (find_uniq_u) | "h" (find_uniq_hkls, one column)    *)
-(*   x0      the base object: an integer UBI (mode u) / an hkl (mode h)    *)
-(*   tag     how x0 was made: <<cell index, quaternion>> / <<0, hkl>>      *)
-(*   s       which group element was applied beforehand (start = grp[s].x0)*)
+(*           | "l" (find_uniq_hkls, a list of columns)                      *)
+(*   x0      the base object: an integer UBI (mode u) / an hkl (mode h) /  *)
+(*           a sequence of hkl (mode l)                                    *)
+(*   tag     how x0 was made: <<cell index, quaternion>> / <<0, hkl>> /    *)
+(*           <<0, length>>                                                 *)
+(*   s       which group element was applied beforehand (start = grp[s].x0;*)
+(*           mode l: column j is turned by grp[Rot(s, j)], another element *)
+(*           for every column, every element for every column over the s)  *)
 (*   i       cursor of the scan `for o in grp.group`                       *)
 (*   cur     the argument of the current call: Start(s) = grp[s] . x0      *)
 (*   uniq, tmax   the scan's running best and its score.  Data refinement: *)
 (*           the matrix `uniq` of the code is grp[uniq] . start, the model *)
-(*           keeps the index (1 = identity = "still the input")            *)
+(*           keeps the index (1 = identity = "still the input"); mode l:   *)
+(*           one index / one score PER COLUMN (sequences)                  *)
 (*   res     results of the finished calls: res[s] = index of the winning  *)
 (*           group element for start s, the returned object is Result(s)   *)
+(*           (mode l: res[s][j] per column, the returned array ResultL(s)) *)
 (*   two-thread model (SpecC; constant in Spec):                           *)
 (*   th      frames of the two threads inside generate_group: pc, name,    *)
 (*           obj (local g, an object id), gi, a, b, new, hit, held         *)
@@ -68,6 +80,11 @@
 (*   MultiplyOld             product is a member: new = FALSE              *)
 (*   ChooseUbi / ChooseHkl   choose the object whose orbit is reduced      *)
 (*   ScanKeep / ScanSkip     loop body of find_uniq_*: t > tmax or not     *)
+(*   ChooseList              choose a LIST of hkl (1..ListMax columns drawn *)
+(*                           from ListPool, repetitions and members of one *)
+(*                           orbit included)                               *)
+(*   ScanListSome / ScanListNone   loop body of find_uniq_hkls on the array:*)
+(*                           the mask is true for some column / for none   *)
 (*   Return                  back to idle (cache configuration only)       *)
 (*   SpecC, per thread t: Contains (args in symcache), Get (symcache[args]),*)
 (*   New (g = group()), AddItemC, MultC (the additem / makegroup steps on   *)
@@ -94,6 +111,23 @@
 (*     HklLexMax: where the whole orbit stays within 499 the result is the *)
 (*     lexicographic maximum (independent of the packing base 1000);       *)
 (*     beyond 499 the key is not injective: SymGroup_hkl500.cfg.           *)
+(*   at "done", mode l: ListColumnwise (THE list law: the array that comes  *)
+(*     back is, column by column, the lexicographic maximum of that        *)
+(*     column's orbit - whatever the other columns are, wherever the column *)
+(*     sits, however long the list is), ListPositionFree (two columns of    *)
+(*     one orbit - in one list or in two starts - come back equal),         *)
+(*     ListIsMap (the array result is the map of the one-column scan of     *)
+(*     mode h over the columns: nothing in the reduction couples columns).  *)
+(*     The law does not mention the length: the harness scales every list   *)
+(*     TLC emits to the lengths ListSizes (1 .. 3e5 columns, the powers of  *)
+(*     two around which a block-wise implementation would change its code   *)
+(*     path): N columns drawn from the hkl TLC reduced (modes h and l) and  *)
+(*     from seeded triples, one real call, the result judged column by      *)
+(*     column against the emitted per-column result / the lexicographic     *)
+(*     maximum of the column's orbit.                                       *)
+(*     SymGroup_blocks.cfg (BlockSize = 2): the block-wise variant that     *)
+(*     forgets the trailing n % BlockSize columns violates ListColumnwise,  *)
+(*     ListPositionFree and ListIsMap at 3 columns.                         *)
 (*   temporal (cache configuration): Terminates (every makegroup returns)  *)
 (*   two threads (SymGroup_conc / _conct): HeldFull + Frozen + HeldClosed  *)
 (*     (= HeldClosedAlways: no caller ever holds, from its return on, a    *)
@@ -116,15 +150,18 @@
 (* Harness-side families that are covariant in the model (bound in          *)
 (* harness/props/c16.py, not enumerated by TLC): cell scale 1 A .. 1e3 A,   *)
 (* the kind of the argument (list, Fortran / strided array, func=, debug=), *)
-(* hkl arrays of many columns and their dtype (each column is one ChooseHkl *)
-(* behaviour), which real thread plays which model thread.                  *)
+(* the dtype and memory layout of hkl arrays, lists longer than ListMax (by  *)
+(* ListColumnwise each column is one ChooseHkl behaviour; lengths ListSizes),*)
+(* the number of orientations handed to makeuniq / uniq_grain_list, which    *)
+(* real thread plays which model thread.                                     *)
 (*                                                                         *)
 (* Bounds: Names (ten groups), quaternion components -QMax..QMax (all      *)
 (* rational rotations |q|^2 R(q); contains the signed permutations and the *)
 (* Pythagorean angles 3-4-5, 5-12-13, 7-24-25), hkl box -HMax..HMax plus   *)
 (* the explicit triples BigHkls (entries up to 499: key < 2^29, HklNormKept *)
-(* < 2^31), MaxCalls named-group calls per behaviour, two threads with one  *)
-(* call each.  Largest intermediate (SameLattice) < 2^28 for QMax = 3.      *)
+(* < 2^31), lists of 1..ListMax columns over ListPool (ListMax = 0: none), *)
+(* MaxCalls named-group calls per behaviour, two threads with one call     *)
+(* each.  Largest intermediate (SameLattice) < 2^28 for QMax = 3.          *)
 (***************************************************************************)
 EXTENDS ExactLA, Json
 
@@ -140,6 +177,15 @@ CONSTANTS Names,      \* subset of the ten group names
           BigHkls,    \* extra hkl reduced besides the box.  A configuration file has sets but no tuples:
                       \* (nor negative numbers): the triple (h, k, l), entries in -999..999, is written
                       \* {1000 + h, 11000 + k, 21000 + l}
+          ListMax,    \* lists of 1..ListMax hkl columns are reduced as ARRAYS (mode l); 0: none
+          ListPool,   \* the hkl the columns of a list are drawn from (encoded like BigHkls)
+          ListSizes,  \* the lengths the harness scales every emitted list to (ListColumnwise does not
+                      \* depend on the length); TLC itself explores the lengths 1..ListMax
+          BlockSize,  \* 0: find_uniq_hkls as written (every operator passes over ALL columns at once);
+                      \* b > 0: the block-wise variant  for i in range(n // b): columns i*b .. (i+1)*b - 1
+                      \* for lists longer than b, which never visits the trailing n % b columns
+                      \* (SymGroup_blocks.cfg: ListColumnwise is expected to be VIOLATED - what the
+                      \* scaling of the lists to ListSizes in the harness looks for in the real code)
           ConcPairs,  \* two-thread model: set of sets {n1, n2} ({n}: both threads ask for n); the two
                       \* threads make the first calls of the two names concurrently
           CoarseNames, Stride,  \* two-thread model: a thread closing a group of CoarseNames can be preempted
@@ -166,6 +212,11 @@ ASSUME Names \subseteq AllNames /\ QMax \in 1..3 /\ HMax \in 1..4 /\ MaxCalls \i
                               /\ \E h \in c : h \in 1..1999
                               /\ \E k \in c : k \in 10001..11999
                               /\ \E l \in c : l \in 20001..21999
+       /\ ListMax \in 0..3 /\ BlockSize \in 0..3 /\ \A n \in ListSizes : n >= 1
+       /\ \A d \in ListPool : /\ Cardinality(d) = 3
+                               /\ \E h \in d : h \in 1..1999
+                               /\ \E k \in d : k \in 10001..11999
+                               /\ \E l \in d : l \in 20001..21999
        /\ \A p \in ConcPairs : p \subseteq AllNames /\ Cardinality(p) \in {1, 2}
        /\ CoarseNames \subseteq AllNames
        /\ Stride \in 1..24 /\ PublishEarly \in BOOLEAN
@@ -268,12 +319,17 @@ Decode(c) == << (CHOOSE v \in c : v \in 1..1999) - 1000,
                 (CHOOSE v \in c : v \in 10001..11999) - 11000,
                 (CHOOSE v \in c : v \in 20001..21999) - 21000 >>
 BigBox == { Decode(c) : c \in BigHkls }
+PoolBox == { Decode(c) : c \in ListPool }
+Lists == UNION { [1..n -> PoolBox] : n \in 1..ListMax }       \* every list of 1..ListMax columns over the pool
 
 \* ---- the two reductions share one scan ----------------------------------------------
 HklKey(h) == (h[1]*1000 + h[2])*1000 + h[3]                      \* hklmax(h, 1000)
 Op(o, x) == IF mode = "u" THEN Mul(o, x) ELSE T3(MV(o, x))       \* grp.op(o, x) = dot(o, x)
 Score(x) == IF mode = "u" THEN Trace(x) ELSE HklKey(x)           \* func
-Start(k) == Op(grp[k], x0)                                      \* group element applied beforehand
+\* mode l: column j of start k is turned by another group element than its neighbours
+Rot(k, j) == ((k + j - 2) % Len(grp)) + 1
+StartL(k) == [j \in 1..Len(x0) |-> T3(MV(grp[Rot(k, j)], x0[j]))]
+Start(k) == IF mode = "l" THEN StartL(k) ELSE Op(grp[k], x0)    \* group element applied beforehand
 \* func(op(o, x)) without forming the whole product in mode u: trace(o . x) = sum_i o[i] . col_i(x)
 ScoreOp(o, x) == IF mode = "u" THEN Dot(o[1], Col(x, 1)) + Dot(o[2], Col(x, 2)) + Dot(o[3], Col(x, 3))
                  ELSE HklKey(MV(o, x))
@@ -373,17 +429,61 @@ NextCall(u, t) ==
           ELSE s' = s /\ i' = i /\ uniq' = u /\ tmax' = t /\ pc' = "done" /\ cur' = cur
 
 ScanKeep ==          \* if func(cand) > tmax: uniq = cand; tmax = t
-  /\ pc = "scan"
+  /\ pc = "scan" /\ mode # "l"
   /\ LET t == ScoreOp(grp[i], cur) IN       \* cand = grp.op(o, u); t = func(cand)
        /\ t > tmax
        /\ NextCall(i, t)
   /\ UNCHANGED << mode, x0, tag >> /\ NoGen
 
 ScanSkip ==
-  /\ pc = "scan"
+  /\ pc = "scan" /\ mode # "l"
   /\ LET t == ScoreOp(grp[i], cur) IN
        /\ ~(t > tmax)
        /\ NextCall(uniq, tmax)
+  /\ UNCHANGED << mode, x0, tag >> /\ NoGen
+
+\* ---- find_uniq_hkls on a 3 x n array (sym_u.py:246-257) ------------------------------------
+\*   uniq = hkls.copy(); tmax = func(hkls)            one key per column
+\*   for o in grp.group:
+\*       cand = grp.op(o, hkls); t = func(cand)        all columns at once
+\*       msk = t > tmax
+\*       uniq[i] = np.where(msk, cand[i], uniq[i]); tmax = np.where(msk, t, tmax)
+PickList(L) ==
+  /\ pc = "closed" /\ DoScan /\ Len(calls) = 1
+  /\ mode' = "l" /\ x0' = L /\ tag' = << 0, Len(L) >> /\ s' = 1 /\ i' = 1 /\ res' = << >>
+  /\ LET st == [j \in 1..Len(L) |-> T3(MV(grp[Rot(1, j)], L[j]))] IN
+       /\ cur' = st
+       /\ uniq' = [j \in 1..Len(L) |-> 1]
+       /\ tmax' = [j \in 1..Len(L) |-> HklKey(st[j])]
+  /\ pc' = "scan"
+  /\ NoGen
+
+NextCallL(u, t) ==
+  IF i < Len(grp) THEN i' = i + 1 /\ uniq' = u /\ tmax' = t /\ UNCHANGED << s, res, pc, cur >>
+  ELSE /\ res' = Append(res, u)
+       /\ IF s < Len(grp)
+          THEN /\ s' = s + 1 /\ i' = 1 /\ pc' = pc
+               /\ cur' = StartL(s + 1) /\ uniq' = [j \in 1..Len(x0) |-> 1]
+               /\ tmax' = [j \in 1..Len(x0) |-> HklKey(StartL(s + 1)[j])]
+          ELSE s' = s /\ i' = i /\ uniq' = u /\ tmax' = t /\ pc' = "done" /\ cur' = cur
+
+ListT == [j \in 1..Len(x0) |-> HklKey(MV(grp[i], cur[j]))]         \* t = func(op(o, hkls))
+Visited(j) == IF BlockSize = 0 \/ Len(x0) <= BlockSize THEN TRUE         \* one pass over the whole array
+              ELSE j <= (Len(x0) \div BlockSize) * BlockSize                \* the variant: whole blocks only
+ListMsk == [j \in 1..Len(x0) |-> Visited(j) /\ ListT[j] > tmax[j]]
+
+ScanListSome ==      \* the mask selects at least one column: those are replaced, the others kept
+  /\ pc = "scan" /\ mode = "l"
+  /\ \E j \in 1..Len(x0) : ListMsk[j]
+  /\ LET t == ListT  m == ListMsk IN
+       NextCallL([j \in 1..Len(x0) |-> IF m[j] THEN i ELSE uniq[j]],
+                 [j \in 1..Len(x0) |-> IF m[j] THEN t[j] ELSE tmax[j]])
+  /\ UNCHANGED << mode, x0, tag >> /\ NoGen
+
+ScanListNone ==      \* the mask is empty
+  /\ pc = "scan" /\ mode = "l"
+  /\ \A j \in 1..Len(x0) : ~ListMsk[j]
+  /\ NextCallL(uniq, tmax)
   /\ UNCHANGED << mode, x0, tag >> /\ NoGen
 
 Return ==
@@ -394,12 +494,14 @@ Return ==
 
 ChooseUbi == pc = "closed" /\ DoScan /\ \E c \in 1..Len(Cells(name)), q \in Quats : PickUbi(c, q)
 ChooseHkl == pc = "closed" /\ DoScan /\ \E h \in Box \cup BigBox : PickHkl(h)
+ChooseList == pc = "closed" /\ DoScan /\ \E L \in Lists : PickList(L)
 
 Next ==
   \/ \E n \in Names : CallHit(n) \/ CallMiss(n)
   \/ AddGen \/ MultiplyNew \/ MultiplyOld
-  \/ ChooseUbi \/ ChooseHkl
+  \/ ChooseUbi \/ ChooseHkl \/ ChooseList
   \/ ScanKeep \/ ScanSkip
+  \/ ScanListSome \/ ScanListNone
   \/ Return
 
 Spec == Init /\ [][Next]_vars /\ WF_vars(Next)
@@ -527,7 +629,12 @@ TypeOK ==
   /\ pc \in {"idle", "additem", "mult", "closed", "scan", "done"}
   /\ name \in Names \cup {""} /\ Len(calls) <= MaxCalls
   /\ (pc \in {"additem", "mult", "closed"} => \A k \in 1..Len(grp) : IsMat(grp[k]))
-  /\ (pc \in {"scan", "done"} => uniq \in 1..Len(grp) /\ \A k \in 1..Len(res) : res[k] \in 1..Len(grp))
+  /\ ((pc \in {"scan", "done"} /\ mode # "l") =>
+         uniq \in 1..Len(grp) /\ \A k \in 1..Len(res) : res[k] \in 1..Len(grp))
+  /\ ((pc \in {"scan", "done"} /\ mode = "l") =>
+         /\ Len(x0) \in 1..ListMax /\ Len(cur) = Len(x0) /\ Len(tmax) = Len(x0)
+         /\ uniq \in [1..Len(x0) -> 1..Len(grp)]
+         /\ \A k \in 1..Len(res) : res[k] \in [1..Len(x0) -> 1..Len(grp)])
   /\ pc \in {"mult"} => a \in 1..Len(grp) /\ b \in 1..Len(grp)
   /\ pc \in {"scan"} => s \in 1..Len(grp) /\ i \in 1..Len(grp) /\ Len(res) = s - 1
   /\ pc = "done" => Len(res) = Len(grp)
@@ -584,7 +691,8 @@ CacheOK ==
   /\ (AtClosed /\ hit) => Len(grp) = Order(name)
 
 \* ---- orbit laws ----------------------------------------------------------------------------
-AtDone == pc = "done"
+AtDone == pc = "done" /\ mode # "l"
+AtDoneL == pc = "done" /\ mode = "l"
 Result(k) == Op(grp[res[k]], Start(k))                  \* what call number k returned
 OrbitOf == { Start(k) : k \in 1..Len(grp) }
 MaxOver(S) == CHOOSE m \in S : \A t \in S : t <= m
@@ -635,6 +743,37 @@ LexLeq(x, y) == \/ x[1] < y[1]
 HklLexMax == (AtDone /\ mode = "h") =>
                 LET O == OrbitOf IN
                   (\A y \in O : LexDomain(y)) => \A x \in ResultSet : \A y \in O : LexLeq(y, x)
+
+\* ---- the list laws (mode l) ------------------------------------------------------------------
+ResultL(k) == [j \in 1..Len(x0) |-> T3(MV(grp[res[k][j]], StartL(k)[j]))]    \* the array call k returned
+OrbH(h) == { T3(MV(grp[k], h)) : k \in 1..Len(grp) }
+InLexDomain(h) == \A y \in OrbH(h) : LexDomain(y)
+LexMaxOf(h) == CHOOSE x \in OrbH(h) : \A y \in OrbH(h) : LexLeq(y, x)
+\* the one-column scan of mode h (first strict maximum of the key over the group list), written as a
+\* function of the start column: what find_uniq_hkls returns for a list of ONE column
+RECURSIVE Scan1(_, _, _, _)
+Scan1(h, k, best, tbest) ==
+  IF k > Len(grp) THEN best
+  ELSE LET c == T3(MV(grp[k], h)) IN
+         IF HklKey(c) > tbest THEN Scan1(h, k + 1, c, HklKey(c)) ELSE Scan1(h, k + 1, best, tbest)
+Reduce1(h) == Scan1(h, 1, h, HklKey(h))
+\* THE list law: column by column the lexicographic maximum of that column's own orbit
+ListColumnwise == AtDoneL => \A k \in 1..Len(res) : \A j \in 1..Len(x0) :
+                               InLexDomain(x0[j]) => ResultL(k)[j] = LexMaxOf(x0[j])
+\* two columns of one orbit come back equal, in whatever list position and from whatever start
+ListPositionFree == AtDoneL => \A k, k2 \in 1..Len(res) : \A j, j2 \in 1..Len(x0) :
+                                 (InLexDomain(x0[j]) /\ x0[j2] \in OrbH(x0[j])) => ResultL(k)[j] = ResultL(k2)[j2]
+\* nothing couples the columns: the array result is the map of the one-column scan
+ListIsMap == AtDoneL => \A k \in 1..Len(res) : \A j \in 1..Len(x0) : ResultL(k)[j] = Reduce1(StartL(k)[j])
+
+EmitList ==
+  AtDoneL => PrintT("@@" \o ToJson(
+      [ kind |-> "l", name |-> name, x0 |-> x0,
+        starts |-> [k \in 1..Len(res) |-> StartL(k)],
+        res |-> [k \in 1..Len(res) |-> ResultL(k)],
+        lex |-> [j \in 1..Len(x0) |-> LexMaxOf(x0[j])],
+        indom |-> [j \in 1..Len(x0) |-> InLexDomain(x0[j])],
+        sizes |-> ListSizes ]))
 
 \* FALSE on trace ties (finding F12): invariant of SymGroup_ties.cfg only
 CanonicalAlways == AtDone => Cardinality({ Result(k) : k \in 1..Len(res) }) = 1
@@ -720,5 +859,5 @@ EmitOrbit ==
         nmax |-> Cardinality({ x \in OrbitOf : Score(x) = MaxScore }),
         ndist |-> Cardinality({ R[k] : k \in 1..Len(res) }) ]))
 
-Emit == EmitGroup /\ EmitOrbit
+Emit == EmitGroup /\ EmitOrbit /\ EmitList
 =============================================================================
